@@ -194,6 +194,10 @@ func c07Open(w *wiring, dir string) (*harnessDb, error) {
 		h.stores[def.Name].AddUntypedEntityConstraint(&c07EntityConstraint{store: def.Name})
 	}
 	c07ctl = &c07Ctl{h: h}
+	// every kind of hook that is told about a transaction (store_c07_hooks.go): none may run for a failed one
+	if err := c07HkAttach(h); err != nil {
+		return nil, err
+	}
 	gPersistWitness = func(def *sStore, ctx *boltz.PersistContext) {
 		if c07ctl != nil && ctx.Bucket.HasError() {
 			c07ctl.persist[def.Name] = true
@@ -205,6 +209,7 @@ func c07Open(w *wiring, dir string) (*harnessDb, error) {
 func c07Close(h *harnessDb) {
 	h.close()
 	c07ctl = nil
+	c07hk = nil
 	gPersistWitness = nil
 }
 
@@ -234,8 +239,10 @@ func c07RunTx(h *harnessDb, t *hTx) string {
 			}
 		}
 	}
+	c07HkReset()
 	seg := c07RunTxRecover(h, &run)
-	if len(ctl.persist) > 0 {
+	hk := c07HkCollect(strings.Contains(seg, " COMMIT"))
+	if len(ctl.persist) > 0 || hk != "" {
 		var lv []string
 		for l := range ctl.persist {
 			lv = append(lv, l)
@@ -245,6 +252,7 @@ func c07RunTx(h *harnessDb, t *hTx) string {
 		for _, l := range lv {
 			tok += " RAISED:persist:" + l
 		}
+		tok += hk
 		// in front of the first read token (Q:...), i.e. among the tokens between the commit flag and " ST"
 		if i := strings.Index(seg, " Q:"); i >= 0 {
 			seg = seg[:i] + tok + seg[i:]
@@ -501,6 +509,8 @@ func (g *histGen) c07Decorate(t *hTx) {
 	}
 	// pre-commit / commit actions registered through contexts derived from the transaction's context (store_c07_ctx.go)
 	g.c07CtxDecorate(t)
+	// commit actions on more transactions; the marker that makes the model print its hook counts (store_c07_hooks.go)
+	g.c07HkDecorate(t)
 }
 
 func (g *histGen) c07GenAndRun(h *harnessDb) ([]hTx, string) {
@@ -633,10 +643,14 @@ func runStoreC07(o *opts) error {
 		stats["obs_rollback"] += strings.Count(obs, " ROLLBACK")
 		stats["obs_vetoed"] += strings.Count(obs, " VETOED")
 		stats["obs_raised_persist"] += strings.Count(obs, " RAISED:persist:")
+		stats["obs_hook_tokens"] += strings.Count(obs, " HK:")
+		stats["obs_tx_complete"] += strings.Count(obs, " HK:tc:")
+		stats["obs_commit_action_after_rollback"] += strings.Count(obs, " CA-AFTER-ROLLBACK:")
 		for _, k := range []string{" dup", " notfound", " refexists", " err"} {
 			stats["res_"+strings.TrimSpace(k)] += strings.Count(obs, k+" ")
 		}
 	}
+	stats["hook_wait_timeouts"] = c08Timeouts
 	writeJSON(o.out, "stats.json", stats)
 	fmt.Fprintf(os.Stderr, "storec07: %d histories\n", n)
 	return nil
